@@ -314,7 +314,8 @@ pub fn run(n: usize, rng: &mut Rng, out: &mut Out) {
         docs.push((c, s.clone()));
     }
     for _ in 0..n {
-        let c = crate::cfg::sample(rng, false, true);
+        let mut c = crate::cfg::sample(rng, false, true);
+        c.mask &= (1 << crate::cfg::N_PLUGINS) - 1; // the render model knows the shipped node kinds only
         let d = if rng.chance(1, 4) { hostile(rng) } else { crate::gen::doc::any_doc(rng) };
         docs.push((c, d));
     }
